@@ -170,3 +170,19 @@ func soak() {
 		}
 	}
 }
+
+var soakSerial int
+
+// preSoak gives a window-mode worker some of the history of a long-running
+// process before its first scenario: several hundred distinct paths with
+// non-ASCII keys are parsed and printed (bounded, generational caches of
+// printed strings have rotated by the time the scenarios print concurrently).
+func preSoak(n int) {
+	defer func() { _ = recover() }()
+	soakSerial += n
+	for i := soakSerial - n; i < soakSerial; i++ {
+		if p, err := safeParse(fmt.Sprintf(`$."é%d"."ü%d" ? (@ == "日%d")`, i, i, i)); err == nil {
+			_ = p.String()
+		}
+	}
+}
